@@ -14,6 +14,18 @@
 //!   crashdeliver <id> <k>     delivery killed just before its k-th commit -> persisted state line
 //!   restart <maxEpochLen> <scan order>                               -> state line after start-up
 //!   burst <ids>               (repeated crashes) final answer only   -> td=<n>
+//!   (lean/CkbVerif/Driver/C08.lean adds:)
+//!   burstcrash <ids> <i> <v>  family `fork`: i blocks handed over back to back, v verified, process dead -> persisted state line
+//!   requeued <mel> <order>    the blocks the start-up scan re-submitted, as OBSERVED (ext / deleted / pooled) -> ids
+//!   consts                    max_epoch_length / EXPIRED_EPOCH / BLOCK_DOWNLOAD_WINDOW of the real code -> mel=.. expired=.. bdw=..
+//!   longchain <ids>           family `edge`: the prepared chain                -> ok
+//!   crash2 <mel> <order> <observed state, | for spaces>  second-level crash during start-up re-verification -> state line
+//!
+//! Families (generate): random trees and `deep` (serialised deliveries, crash at commit indexes, restart, first
+//! only the never-stored blocks, then everything), `fork` (burst delivery of competing branches, crash inside
+//! the burst / plain stop, restart WITHOUT re-delivery, reconstruction oracles `restart-state` and
+//! `restart-vs-reference`), `edge` (true lower edge of the scan window on a prepared 10 806-block database),
+//! second-level crashes during the start-up re-verification (`crash2`).
 //! state line: cb=<id>:<new|known|err|drop>,.. tip=<id> td=<n> orph=<k> stored=<ids> ext=<id>:<td>,..
 //!             ver=<ids> inv=<ids>
 //!
@@ -61,6 +73,10 @@ static T_STOP_US: std::sync::atomic::AtomicU64 = std::sync::atomic::AtomicU64::n
 
 fn tick(acc: &std::sync::atomic::AtomicU64, t: Instant) {
     acc.fetch_add(t.elapsed().as_micros() as u64, std::sync::atomic::Ordering::Relaxed);
+}
+
+fn node_cfg_w(epoch_len: u64, wfar: u64) -> NodeCfg {
+    NodeCfg { epoch_len, window: (WINDOW.0, wfar), genesis_cells: GCELLS, maturity_epochs: 0, with_pool: false, tx_pool: None }
 }
 
 fn node_cfg(epoch_len: u64) -> NodeCfg {
@@ -389,11 +405,13 @@ struct Runner<'a> {
     /// after a restart with tip = genesis: blocks InitLoadUnverified must have resubmitted; the poll
     /// waits (bounded) until each has an ext, is deleted or is pooled
     await_resolved: Vec<usize>,
+    /// commits caused by `poke` (not part of the protocol): subtracted from the counts the child logs
+    poke_commits: u64,
 }
 
 impl<'a> Runner<'a> {
     fn new(node: &'a Node, blks: &'a [Blk], fenced: bool) -> Runner<'a> {
-        Runner { node, blks, by_hash: hash_map(blks), log: Arc::new(Mutex::new(CbLog::default())), handed: 0, handed_by_id: HashMap::new(), fenced, foreign: BTreeSet::new(), await_resolved: vec![] }
+        Runner { node, blks, by_hash: hash_map(blks), log: Arc::new(Mutex::new(CbLog::default())), handed: 0, handed_by_id: HashMap::new(), fenced, foreign: BTreeSet::new(), await_resolved: vec![], poke_commits: 0 }
     }
 
     fn view(&self) -> StateView {
@@ -440,17 +458,52 @@ impl<'a> Runner<'a> {
         let store = self.node.store();
         let mut v = vec![];
         for b in self.blks.iter().skip(1) {
-            let p = &self.blks[b.parent];
+            let p = b.block.parent_hash();
             if store.get(COLUMN_BLOCK_HEADER, b.hash.as_slice()).is_some()
                 && store.get_block_ext(&b.hash).is_none()
-                && store.get_block_ext(&p.hash).is_some()
-                && self.node.shared.get_block_status(&p.hash) != BlockStatus::BLOCK_INVALID
+                && store.get_block_ext(&p).is_some()
+                && self.node.shared.get_block_status(&p) != BlockStatus::BLOCK_INVALID
                 && !self.in_pool(b.id)
             {
                 v.push(b.id);
             }
         }
         v
+    }
+
+    /// pooled blocks whose parent has an ext and is not BLOCK_INVALID (impossible in the model)
+    fn stranded(&self) -> Vec<usize> {
+        if self.node.controller().orphan_blocks_len() == 0 {
+            return vec![];
+        }
+        let store = self.node.store();
+        self.blks.iter().skip(1).filter(|b| {
+            // (the child process does not know the ids of parents: use the block's own parent hash)
+            let p = b.block.parent_hash();
+            self.in_pool(b.id) && store.get_block_ext(&p).is_some() && self.node.shared.get_block_status(&p) != BlockStatus::BLOCK_INVALID
+        }).map(|b| b.id).collect()
+    }
+
+    /// hands the (verified) tip block over once more, with a private callback, and waits for its answer
+    fn poke(&mut self) -> Result<(), String> {
+        let tip = self.node.shared.snapshot().tip_hash();
+        let Some(i) = self.by_hash.get(&tip).copied() else { return Ok(()) };
+        if i == 0 {
+            return Ok(());
+        }
+        let (tx, rx) = crossbeam_channel::bounded::<bool>(1);
+        let lb = LonelyBlock { block: self.blks[i].block.clone(), switch: None, verify_callback: Some(Box::new(move |r: VerifyResult| { let _ = tx.send(r.is_ok()); })) };
+        let before = ckb_db::verif_crash::count();
+        if !self.node.controller().verif_process_lonely_block_sync(lb) {
+            return Err("the chain service has gone".into());
+        }
+        match rx.recv_timeout(wait_timeout()) {
+            Ok(_) => {
+                self.poke_commits += ckb_db::verif_crash::count().saturating_sub(before).min(1);
+                Ok(())
+            }
+            Err(_) => Err("the extra tip delivery was not answered".into()),
+        }
     }
 
     fn unresolved_awaited(&self) -> Vec<usize> {
@@ -561,6 +614,27 @@ impl<'a> Runner<'a> {
         } else {
             self.wait_counting()?;
         }
+        // `search_orphan_leader` reads the leader's status BEFORE `is_pending_verify`; when the verify thread
+        // finishes the leader between the two reads (seen under heavy load) both answers are negative and the
+        // leader's descendants stay in the orphan pool although their parent has an ext, until the NEXT delivery
+        // runs the search again (the model's steps are atomic and connect them at once: C01 orphans_connected).
+        // Counted and reported, not failed (not a listed finding): one more delivery (the verified tip) is handed
+        // over, as the next block from the network would be.
+        for _ in 0..3 {
+            let stranded = self.stranded();
+            let late: Vec<usize> = if self.fenced { self.pending_looking().into_iter().filter(|c| self.foreign.contains(c) || self.handed_by_id.contains_key(c)).collect() } else { vec![] };
+            if stranded.is_empty() && late.is_empty() {
+                break;
+            }
+            STRANDED_ORPHANS.fetch_add(1, std::sync::atomic::Ordering::Relaxed);
+            eprintln!("C08: note: after the delivery of {id} the orphans {stranded:?} were still pooled although their parent has an ext (released late: {late:?}); search_orphan_leader status/pending read order");
+            if self.fenced {
+                self.settle()?;
+            } else {
+                self.poke()?;
+                self.wait_counting()?;
+            }
+        }
         let mut events: Vec<(usize, Verdict)> = self.log.lock().unwrap().events[first..].to_vec();
         let mut hint: Vec<usize> = events.iter().filter(|(i, v)| *v != Verdict::Drop && *i != id).map(|(i, _)| *i).collect();
         if !self.foreign.is_empty() {
@@ -633,7 +707,12 @@ fn child_main(opts: &Opts) -> ! {
             assert!(id < blks.len(), "child: unknown id {id}");
             logln(&mut log, &format!("begin {} {}", id, ckb_db::verif_crash::count()));
             match r.deliver(id) {
-                Ok(d) => logln(&mut log, &format!("done {} {} {} {}", id, ckb_db::verif_crash::count(), show_ids(&d.hint), fmt_line(&d.cbs, &d.view))),
+                Ok(d) => {
+                    if r.poke_commits > 0 {
+                        logln(&mut log, &format!("poked {}", r.poke_commits));
+                    }
+                    logln(&mut log, &format!("done {} {} {} {}", id, ckb_db::verif_crash::count(), show_ids(&d.hint), fmt_line(&d.cbs, &d.view)))
+                }
                 Err(e) => {
                     logln(&mut log, &format!("hang {id} {e}"));
                     std::process::exit(3);
@@ -643,6 +722,86 @@ fn child_main(opts: &Opts) -> ! {
         logln(&mut log, &format!("end {}", ckb_db::verif_crash::count()));
     }
     node.stop();
+    std::process::exit(0)
+}
+
+
+/// `child2 <node_dir> <blocks_file> <log_file> <epoch_len> <w_far> <serial ids> <burst ids> <post ids> <stop|wait>`
+/// (family `fork`): the serial ids are delivered one by one (quiescence after each), then the burst ids are
+/// handed to the chain service back to back WITHOUT waiting for their verification (`sent` is logged when
+/// the chain-service thread has handled the block, i.e. after its insert commit). `stop`: the node is then
+/// stopped at once (a plain stop: whatever is still queued stays stored without ext). `wait`: quiescence,
+/// then the post ids one by one. With VERIF_CRASH_AT the process dies somewhere in the burst.
+fn child2_main(opts: &Opts) -> ! {
+    let a = &opts.extra;
+    assert!(a.len() >= 10, "child2: bad arguments");
+    let node_dir = PathBuf::from(&a[1]);
+    let blocks_file = PathBuf::from(&a[2]);
+    let log_file = PathBuf::from(&a[3]);
+    let el: u64 = a[4].parse().expect("epoch_len");
+    let wfar: u64 = a[5].parse().expect("w_far");
+    let serial = parse_ids(&a[6]);
+    let burst = parse_ids(&a[7]);
+    let post = parse_ids(&a[8]);
+    let stop = a[9] == "stop";
+    let cfg = node_cfg_w(el, wfar);
+    let consensus = make_consensus(&cfg);
+    let blks = read_blocks(&blocks_file, &consensus);
+    let mut log = std::fs::OpenOptions::new().create(true).append(true).open(&log_file).expect("child2: open log");
+    let node = Node::start(&node_dir, consensus, &cfg);
+    let t0 = Instant::now();
+    while node.controller().is_verifying_unverified_blocks_on_startup() {
+        if t0.elapsed() > wait_timeout() {
+            logln(&mut log, "hang startup");
+            std::process::exit(3);
+        }
+        std::thread::sleep(Duration::from_micros(500));
+    }
+    {
+        let mut r = Runner::new(&node, &blks, false);
+        logln(&mut log, &format!("start {}", ckb_db::verif_crash::count()));
+        let one = |r: &mut Runner, log: &mut std::fs::File, id: usize| {
+            assert!(id < blks.len(), "child2: unknown id {id}");
+            logln(log, &format!("begin {} {}", id, ckb_db::verif_crash::count()));
+            match r.deliver(id) {
+                Ok(d) => {
+                    if r.poke_commits > 0 {
+                        logln(log, &format!("poked {}", r.poke_commits));
+                    }
+                    logln(log, &format!("done {} {} {} {}", id, ckb_db::verif_crash::count(), show_ids(&d.hint), fmt_line(&d.cbs, &d.view)))
+                }
+                Err(e) => {
+                    logln(log, &format!("hang {id} {e}"));
+                    std::process::exit(3);
+                }
+            }
+        };
+        for id in serial {
+            one(&mut r, &mut log, id);
+        }
+        logln(&mut log, &format!("burst {}", ckb_db::verif_crash::count()));
+        for id in burst {
+            assert!(id < blks.len(), "child2: unknown id {id}");
+            let lb = r.lonely(id);
+            if !node.controller().verif_process_lonely_block_sync(lb) {
+                logln(&mut log, &format!("hang {id} the chain service has gone"));
+                std::process::exit(3);
+            }
+            logln(&mut log, &format!("sent {} {}", id, ckb_db::verif_crash::count()));
+        }
+        if !stop {
+            if let Err(e) = r.wait_counting() {
+                logln(&mut log, &format!("hang burst {e}"));
+                std::process::exit(3);
+            }
+            logln(&mut log, &format!("quiet {} {}", ckb_db::verif_crash::count(), fmt_line(&[], &r.view())));
+            for id in post {
+                one(&mut r, &mut log, id);
+            }
+        }
+    }
+    node.stop();
+    logln(&mut log, &format!("end {}", ckb_db::verif_crash::count()));
     std::process::exit(0)
 }
 
@@ -661,6 +820,17 @@ struct ChildJob {
     ids: Vec<usize>,
     crash: Option<String>,
     fenced: bool,
+    /// family `fork`: the child runs `child2` (serial prefix, burst, post) instead of `child`
+    fork: Option<ForkArgs>,
+}
+
+#[derive(Clone)]
+struct ForkArgs {
+    wfar: u64,
+    serial: Vec<usize>,
+    burst: Vec<usize>,
+    post: Vec<usize>,
+    stop: bool,
 }
 
 struct ChildEnv {
@@ -670,20 +840,36 @@ struct ChildEnv {
     el: u64,
 }
 
+static ABORT_STALLED: std::sync::atomic::AtomicU64 = std::sync::atomic::AtomicU64::new(0);
+static STRANDED_ORPHANS: std::sync::atomic::AtomicU64 = std::sync::atomic::AtomicU64::new(0);
+
+/// every child writes its stderr to its own file (next to its log)
+fn own_stderr(job: &ChildJob) -> PathBuf {
+    job.log.with_extension("err")
+}
+
 fn run_child(env: &ChildEnv, job: &ChildJob) -> ChildExit {
     use std::os::unix::process::ExitStatusExt;
     use std::process::{Command, Stdio};
     let mut c = Command::new(&env.exe);
-    c.arg("C08").arg("--out").arg(&env.out).arg("child").arg(&job.node_dir).arg(&env.blocks_file).arg(&job.log).arg(env.el.to_string()).arg(show_ids(&job.ids));
-    if job.fenced {
-        c.arg("fenced");
+    c.arg("C08").arg("--out").arg(&env.out);
+    if let Some(f) = &job.fork {
+        c.arg("child2").arg(&job.node_dir).arg(&env.blocks_file).arg(&job.log).arg(env.el.to_string()).arg(f.wfar.to_string());
+        c.arg(show_ids(&f.serial)).arg(show_ids(&f.burst)).arg(show_ids(&f.post)).arg(if f.stop { "stop" } else { "wait" });
+    } else {
+        c.arg("child").arg(&job.node_dir).arg(&env.blocks_file).arg(&job.log).arg(env.el.to_string()).arg(show_ids(&job.ids));
+        if job.fenced {
+            c.arg("fenced");
+        }
     }
     c.env_remove("VERIF_CRASH_AT");
     if let Some(s) = &job.crash {
         c.env("VERIF_CRASH_AT", s);
     }
     c.stdin(Stdio::null()).stdout(Stdio::null());
-    match std::fs::OpenOptions::new().create(true).append(true).open(&job.stderr) {
+    let own = own_stderr(job);
+    let _ = std::fs::remove_file(&own);
+    match std::fs::OpenOptions::new().create(true).append(true).open(&own) {
         Ok(f) => {
             c.stderr(f);
         }
@@ -696,7 +882,20 @@ fn run_child(env: &ChildEnv, job: &ChildJob) -> ChildExit {
     loop {
         match ch.try_wait().expect("wait child") {
             Some(st) => {
+                // this child's stderr goes to the run's collected file as well
+                let txt = std::fs::read_to_string(&own).unwrap_or_default();
+                if let Ok(mut f) = std::fs::OpenOptions::new().create(true).append(true).open(&job.stderr) {
+                    let _ = f.write_all(txt.as_bytes());
+                }
                 return match (st.code(), st.signal()) {
+                    // The crash hook announced the abort (`std::process::abort()` entered at the chosen commit)
+                    // but the process was still there when the child's own 60 s watchdog ended it with
+                    // exit(3): the thread inside abort() never returns, nothing was shut down cleanly, so
+                    // this IS the process death at that commit (seen once on a machine with load > 40).
+                    (Some(3), _) if job.crash.is_some() && txt.contains("VERIF_CRASH_AT: abort") => {
+                        ABORT_STALLED.fetch_add(1, std::sync::atomic::Ordering::Relaxed);
+                        ChildExit::Signal(SIGABRT)
+                    }
                     (Some(c), _) => ChildExit::Code(c),
                     (None, Some(s)) => ChildExit::Signal(s),
                     _ => ChildExit::Code(-1),
@@ -758,6 +957,8 @@ struct Done {
     count: u64,
     hint: String,
     line: String,
+    /// commits of extra tip deliveries (`Runner::poke`) so far: not part of the protocol
+    pokes: u64,
 }
 
 #[derive(Default)]
@@ -767,6 +968,14 @@ struct ChildLog {
     inflight: Option<(usize, u64)>,
     end: Option<u64>,
     hang: Option<String>,
+    /// `child2`: commit counter when the burst started, ids handed over, the quiescent state after the burst
+    burst_at: Option<u64>,
+    sent: Vec<usize>,
+    quiet: Option<(u64, String)>,
+    /// number of `done` lines before the burst
+    serial_dones: usize,
+    /// commits of extra tip deliveries so far (see `Runner::poke`)
+    pokes: u64,
 }
 
 fn parse_log(path: &Path) -> ChildLog {
@@ -789,12 +998,30 @@ fn parse_log(path: &Path) -> ChildLog {
                 let hint = it.next();
                 let rest = it.next();
                 if let (Some(id), Some(count), Some(hint), Some(rest)) = (id, c, hint, rest) {
-                    l.dones.push(Done { id, count, hint: hint.to_string(), line: rest.to_string() });
+                    l.dones.push(Done { id, count, hint: hint.to_string(), line: rest.to_string(), pokes: l.pokes });
                     l.inflight = None;
                 }
             }
             Some("end") => l.end = it.next().and_then(|x| x.parse().ok()),
             Some("hang") => l.hang = Some(line.to_string()),
+            Some("poked") => l.pokes = it.next().and_then(|x| x.parse().ok()).unwrap_or(l.pokes),
+            Some("burst") => {
+                l.burst_at = it.next().and_then(|x| x.parse().ok());
+                l.serial_dones = l.dones.len();
+                l.inflight = None;
+            }
+            Some("sent") => {
+                if let Some(id) = it.next().and_then(|x| x.parse().ok()) {
+                    l.sent.push(id);
+                }
+            }
+            Some("quiet") => {
+                let c = it.next().and_then(|x| x.parse::<u64>().ok());
+                let rest: Vec<&str> = it.collect();
+                if let Some(c) = c {
+                    l.quiet = Some((c, rest.join(" ")));
+                }
+            }
             _ => {}
         }
     }
@@ -1528,7 +1755,7 @@ fn analyse_ref(h: &Hist, log: &ChildLog) -> Option<RefRun> {
 }
 
 fn describe_exit(e: &ChildExit, job: &ChildJob) -> String {
-    let tail = std::fs::read_to_string(&job.stderr).unwrap_or_default();
+    let tail = std::fs::read_to_string(own_stderr(job)).unwrap_or_default();
     let tail: String = tail.lines().rev().take(6).collect::<Vec<_>>().into_iter().rev().collect::<Vec<_>>().join(" | ");
     format!("exit={e:?} crash={:?} stderr: {}", job.crash, tail)
 }
@@ -1556,8 +1783,8 @@ fn classify(prev: &StateView, next: &StateView) -> &'static str {
 fn multi_case(out: &mut Out, h: &Hist, builder: &mut ChainBuilder, env: &ChildEnv, base: &Path, tag: &str, order: &[usize], n1: u64, n2: u64, expect: Option<(u128, Option<usize>)>, stderr: &Path, hname: &str, begin: bool) {
     let dir = base.join(tag);
     let _ = std::fs::remove_dir_all(&dir);
-    let j1 = ChildJob { node_dir: dir.clone(), log: base.join(format!("{tag}-1.log")), stderr: stderr.to_path_buf(), ids: order.to_vec(), crash: Some(format!("{n1}:before")), fenced: false };
-    let j2 = ChildJob { node_dir: dir.clone(), log: base.join(format!("{tag}-2.log")), stderr: stderr.to_path_buf(), ids: order.to_vec(), crash: Some(format!("{n2}:before")), fenced: true };
+    let j1 = ChildJob { node_dir: dir.clone(), log: base.join(format!("{tag}-1.log")), stderr: stderr.to_path_buf(), ids: order.to_vec(), crash: Some(format!("{n1}:before")), fenced: false, fork: None };
+    let j2 = ChildJob { node_dir: dir.clone(), log: base.join(format!("{tag}-2.log")), stderr: stderr.to_path_buf(), ids: order.to_vec(), crash: Some(format!("{n2}:before")), fenced: true, fork: None };
     let _ = std::fs::remove_file(&j1.log);
     let _ = std::fs::remove_file(&j2.log);
     if begin {
@@ -1608,6 +1835,80 @@ fn multi_case(out: &mut Out, h: &Hist, builder: &mut ChainBuilder, env: &ChildEn
     let _ = std::fs::remove_file(&j2.log);
 }
 
+
+/// Step C2: a second-level crash DURING the start-up re-verification, compared on the full persisted state.
+/// Crash n1 on a fresh directory (a crash point of step B that left stored-without-ext blocks); a second
+/// process is started on the directory with no deliveries at all and killed at ITS n2-th commit, i.e. while
+/// InitLoadUnverified re-submits and the verify thread re-verifies. The persisted state must be the first
+/// crash state advanced by SOME prefix of the re-verification (op `crash2`: the model enumerates the
+/// prefixes; the two service threads interleave freely); then the usual recovery with every op compared.
+#[allow(clippy::too_many_arguments)]
+fn second_level_case(out: &mut Out, h: &Hist, builder: &mut ChainBuilder, env: &ChildEnv, base: &Path, tag: &str, order: &[usize], n1: u64, n2: u64, expect: Option<(u128, Option<usize>)>, stderr: &Path, hname: &str) {
+    let dir = base.join(tag);
+    let _ = std::fs::remove_dir_all(&dir);
+    let j1 = ChildJob { node_dir: dir.clone(), log: base.join(format!("{tag}-1.log")), stderr: stderr.to_path_buf(), ids: order.to_vec(), crash: Some(format!("{n1}:before")), fenced: false, fork: None };
+    let j2 = ChildJob { node_dir: dir.clone(), log: base.join(format!("{tag}-2.log")), stderr: stderr.to_path_buf(), ids: vec![], crash: Some(format!("{n2}:before")), fenced: true, fork: None };
+    let _ = std::fs::remove_file(&j1.log);
+    let _ = std::fs::remove_file(&j2.log);
+    let cleanup = || {
+        let _ = std::fs::remove_dir_all(&dir);
+        let _ = std::fs::remove_file(&j1.log);
+        let _ = std::fs::remove_file(&j2.log);
+    };
+    let what = format!("{hname} second-level crash n1={n1} n2={n2}");
+    let e1 = run_child(env, &j1);
+    out.count("child-run");
+    let l1 = parse_log(&j1.log);
+    let (Some((id, c0)), true) = (l1.inflight, e1 == ChildExit::Signal(SIGABRT)) else {
+        out.count("second-level-first-crash-missed");
+        cleanup();
+        return;
+    };
+    out.begin_case(&format!("crash2 el={} n1={} n2={} {}", h.el, n1, n2, hname));
+    emit_blks(out, h);
+    for d in &l1.dones {
+        out.op(&format!("deliver {} {}", d.id, d.hint), &d.line);
+    }
+    let Some(crashed1) = inspect_crashed(out, h, builder, &dir, &format!("{what} (after crash 1)")) else {
+        out.op(&format!("crashdeliver {id} {}", n1 - c0), "unreadable");
+        cleanup();
+        return;
+    };
+    out.op(&format!("crashdeliver {id} {}", n1 - c0), &fmt_line(&[], &crashed1.view));
+    let e2 = run_child(env, &j2);
+    out.count("child-run");
+    let l2 = parse_log(&j2.log);
+    match e2 {
+        ChildExit::Signal(SIGABRT) if l2.start.is_none() => out.count("second-level-crash-during-startup-reverification"),
+        ChildExit::Signal(SIGABRT) | ChildExit::Code(0) => {
+            // the start-up work needed fewer than n2 commits: the directory holds the completed restart
+            out.count("second-level-startup-completed-first");
+        }
+        _ => {
+            let class = if l2.hang.is_some() || e2 == ChildExit::Timeout { "hang" } else { "child-failed" };
+            out.oracle_fail(class, &format!("{what}: second process: {} log-hang={:?}", describe_exit(&e2, &j2), l2.hang));
+            cleanup();
+            return;
+        }
+    }
+    let Some(crashed2) = inspect_crashed(out, h, builder, &dir, &format!("{what} (after crash 2)")) else {
+        cleanup();
+        return;
+    };
+    out.count("crash-point");
+    let obs = fmt_line(&[], &crashed2.view);
+    out.op(&format!("crash2 {} {} {}", h.consensus.max_epoch_length(), show_ids(&h.scan_order()), obs.replace(' ', "|")), &obs);
+    if crashed2.view.ext.len() > crashed1.view.ext.len() && !crashed2.unext.is_empty() {
+        out.count("second-level-crash-mid-reverification");
+        out.nontrivial(h.fingerprint(order, &[n1, n2, 13]));
+    }
+    let phase1: Vec<usize> = order.iter().copied().filter(|i| !crashed2.view.stored.contains(i)).collect();
+    let mut post = phase1.clone();
+    post.extend(order.iter().copied());
+    restart_and_redeliver(out, h, &dir, &crashed2, &Redo { emit: true, tip_op: true, post: &post, remaining: expect.map(|e| (phase1.len(), e)), expect }, &what);
+    cleanup();
+}
+
 fn one_history(out: &mut Out, opts: &Opts, rng: &mut Rng, base: &Path, hno: u64, exe: &Path) {
     let mut bdir = base.join(format!("b{hno}"));
     let thorough = opts.thorough();
@@ -1622,7 +1923,7 @@ fn one_history(out: &mut Out, opts: &Opts, rng: &mut Rng, base: &Path, hno: u64,
         let blocks_file = base.join(format!("h{hno}.blocks"));
         write_blocks(&blocks_file, &h.blks);
         let env = ChildEnv { exe: exe.to_path_buf(), out: opts.out.clone(), blocks_file, el: h.el };
-        let job = ChildJob { node_dir: base.join(format!("h{hno}-ref")), log: base.join(format!("h{hno}-ref.log")), stderr: opts.out.join("child-stderr.txt"), ids: order.clone(), crash: None, fenced: false };
+        let job = ChildJob { node_dir: base.join(format!("h{hno}-ref")), log: base.join(format!("h{hno}-ref.log")), stderr: opts.out.join("child-stderr.txt"), ids: order.clone(), crash: None, fenced: false, fork: None };
         let _ = std::fs::remove_dir_all(&job.node_dir);
         let _ = std::fs::remove_file(&job.log);
         let exit = run_child(&env, &job);
@@ -1660,7 +1961,10 @@ fn one_history(out: &mut Out, opts: &Opts, rng: &mut Rng, base: &Path, hno: u64,
     };
     for d in &rr.dones {
         out.op(&format!("deliver {} {}", d.id, d.hint), &d.line);
-        out.op("commits", &format!("{}", d.count - rr.k0));
+        out.op("commits", &format!("{}", d.count - rr.k0 - d.pokes));
+        if d.pokes > 0 {
+            out.count("orphan-left-pooled-after-parent-verified-in-child");
+        }
         out.count("deliver");
     }
     if rr.any_reorg {
@@ -1678,14 +1982,15 @@ fn one_history(out: &mut Out, opts: &Opts, rng: &mut Rng, base: &Path, hno: u64,
 
     // ---- Step B: every commit index
     let span = rr.total - rr.k0;
-    let mut ns: Vec<u64> = if thorough || span <= 40 {
+    let cap = 28u64;
+    let mut ns: Vec<u64> = if thorough || span <= cap {
         ((rr.k0 + 1)..=rr.total).collect()
     } else {
-        // always every commit of the last 3 deliveries, the rest evenly spread, about 40 in all
+        // always every commit of the last 3 deliveries, the rest evenly spread, about `cap` in all
         let tail_from = rr.before.get(rr.before.len().saturating_sub(3)).copied().unwrap_or(rr.k0) + 1;
         let mut v: Vec<u64> = (tail_from..=rr.total).collect();
         let head_span = tail_from - 1 - rr.k0;
-        let m = 40u64.saturating_sub(v.len() as u64).max(8).min(head_span);
+        let m = cap.saturating_sub(v.len() as u64).max(8).min(head_span);
         if m >= 2 {
             v.extend((0..m).map(|i| rr.k0 + 1 + i * (head_span - 1) / (m - 1)));
         } else if head_span >= 1 {
@@ -1706,9 +2011,10 @@ fn one_history(out: &mut Out, opts: &Opts, rng: &mut Rng, base: &Path, hno: u64,
         .iter()
         .map(|(n, after)| {
             let tag = format!("h{hno}-c{n}{}", if *after { "a" } else { "b" });
-            ChildJob { node_dir: base.join(&tag), log: base.join(format!("{tag}.log")), stderr: opts.out.join("child-stderr.txt"), ids: order.clone(), crash: Some(format!("{n}:{}", if *after { "after" } else { "before" })), fenced: false }
+            ChildJob { node_dir: base.join(&tag), log: base.join(format!("{tag}.log")), stderr: opts.out.join("child-stderr.txt"), ids: order.clone(), crash: Some(format!("{n}:{}", if *after { "after" } else { "before" })), fenced: false, fork: None }
         })
         .collect();
+    let mut good_n1: Vec<(u64, usize)> = vec![]; // (commit index, stored-without-ext blocks with a stored parent) for step C2
     let mut prev_view: Option<(u64, StateView, &'static str)> = None; // for the classification of commit n
     run_jobs(&env, &jobs, 4, |i, exit| {
         let (n, after) = points[i];
@@ -1774,6 +2080,25 @@ fn one_history(out: &mut Out, opts: &Opts, rng: &mut Rng, base: &Path, hno: u64,
         if !crashed.unext.is_empty() {
             out.count("crash-with-unverified-stored");
         }
+        if !after {
+            // stored-without-ext blocks whose ancestors down to a block with an ext are all stored
+            let exts: HashSet<usize> = crashed.view.ext.iter().map(|(i, _)| *i).collect();
+            let connectable = crashed.unext.iter().filter(|u| {
+                let mut x = h.blks[**u].parent;
+                loop {
+                    if exts.contains(&x) {
+                        return true;
+                    }
+                    if !crashed.unext.contains(&x) {
+                        return false;
+                    }
+                    x = h.blks[x].parent;
+                }
+            }).count();
+            if connectable >= 2 {
+                good_n1.push((n, connectable));
+            }
+        }
         if let Some(t) = crashed.view.tip {
             if crashed.unext.iter().any(|i| h.blks[*i].num + 6 < h.blks[t].num) {
                 out.count("deep-stored-unverified-below-tip-6");
@@ -1788,6 +2113,15 @@ fn one_history(out: &mut Out, opts: &Opts, rng: &mut Rng, base: &Path, hno: u64,
         cleanup();
     });
 
+    // ---- Step C2: second-level crashes during the start-up re-verification (full persisted state compared)
+    let want = if deep { 2 } else if thorough { 1 } else { 0 };
+    good_n1.sort_by(|a, b| b.1.cmp(&a.1));
+    good_n1.truncate(4);
+    for j in 0..want.min(good_n1.len()) {
+        let (n1, cnt) = good_n1[j % good_n1.len()];
+        let n2 = rng.range(2, 2 * cnt as u64);
+        second_level_case(out, &h, &mut builder, &env, base, &format!("h{hno}-s{j}"), &order, n1, n2, expect, &opts.out.join("child-stderr.txt"), &format!("hist={hno}"));
+    }
     // ---- Step C: repeated crashes (thorough)
     if thorough && hno % 2 == 0 && span >= 2 {
         for pair in 0..3u64 {
@@ -1802,13 +2136,766 @@ fn one_history(out: &mut Out, opts: &Opts, rng: &mut Rng, base: &Path, hno: u64,
     let _ = std::fs::remove_dir_all(&bdir);
 }
 
+
+// ------------------------------------------------------------------------------------------------
+// family `fork`: competing branches forking at low heights, burst delivery, crash / plain stop with many
+// blocks stored without ext (pooled or queued) far below and above the tip, restart WITHOUT re-delivery
+// ------------------------------------------------------------------------------------------------
+
+struct ForkPlan {
+    /// delivered one by one before the burst (a verified main-chain prefix)
+    serial: Vec<usize>,
+    /// handed over back to back
+    burst: Vec<usize>,
+    /// never received before the crash (connecting parents); delivered after the restart
+    missing: Vec<usize>,
+}
+
+/// Main chain M1..Mh (h in 8..=25), one or two competing branches whose first block sits at height 1..=3.
+/// Per branch: the first block X1 is `withheld` (the rest are orphans: stored without ext, pooled), or
+/// arrives `last` (child-first delivery: the whole branch is released into the verify queue at once), or
+/// `first` (in order, each block queued at once). A withheld branch may also withhold one block in its
+/// upper part (a number gap in the stored candidates: the scan's cut rule above the tip). All blocks valid.
+fn gen_fork(rng: &mut Rng, thorough: bool) -> (TreeSpec, ForkPlan) {
+    let h = if thorough || rng.chance(1, 3) { rng.range(8, 25) } else { rng.range(8, 15) } as usize;
+    let nb = if rng.chance(1, 2) { 2 } else { 1 };
+    let mut parent = vec![0usize];
+    let mut height = vec![0u64];
+    for id in 1..=h {
+        parent.push(id - 1);
+        height.push(id as u64);
+    }
+    let mut forks = vec![0usize, 1, 2];
+    rng.shuffle(&mut forks);
+    let mut branches: Vec<Vec<usize>> = vec![];
+    for j in 0..nb {
+        let f = forks[j];
+        let top = if j == 0 {
+            if rng.chance(2, 3) { h + rng.range(1, 2) as usize } else { h - rng.below(3) as usize }
+        } else {
+            rng.range((h - 4) as u64, (h + 3) as u64) as usize
+        };
+        let k = top - f;
+        let mut ids = vec![];
+        for i in 0..k {
+            let id = parent.len();
+            let p = if i == 0 { f } else { id - 1 };
+            parent.push(p);
+            height.push(height[p] + 1);
+            ids.push(id);
+        }
+        branches.push(ids);
+    }
+    let n = parent.len() - 1;
+    let tree = TreeSpec { parent, kind: vec![Kind::Valid; n + 1], height };
+    let held = if h < 12 { rng.below(2) } else { rng.below(4) } as usize;
+    let serial: Vec<usize> = (1..=h - held).collect();
+    let mut seqs: Vec<Vec<usize>> = vec![(h - held + 1..=h).collect()];
+    let mut missing = vec![];
+    let mut any_withheld = false;
+    for (j, ids) in branches.iter().enumerate() {
+        // the first branch is withheld in 2 of 3 histories; with two branches at least one is withheld
+        let mode = if (j == 0 && rng.chance(2, 3)) || (j == 1 && !any_withheld) { 0 } else { rng.range(1, 2) };
+        let mut rest: Vec<usize> = ids[1..].to_vec();
+        if mode == 0 {
+            any_withheld = true;
+            missing.push(ids[0]);
+            if rest.len() >= 6 && rng.chance(1, 3) {
+                // a second withheld block in the upper part: a number gap among the stored candidates
+                let m = rng.range((rest.len() - 4) as u64, (rest.len() - 2) as u64) as usize;
+                missing.push(rest.remove(m));
+            }
+        }
+        if rng.chance(1, 2) {
+            rest.reverse(); // child-first
+        }
+        match mode {
+            1 => rest.push(ids[0]),
+            2 => {
+                rest = ids.clone();
+            }
+            _ => {}
+        }
+        seqs.push(rest);
+    }
+    // random merge of the sequences (each keeps its internal order)
+    let mut burst = vec![];
+    loop {
+        let live: Vec<usize> = (0..seqs.len()).filter(|i| !seqs[*i].is_empty()).collect();
+        if live.is_empty() {
+            break;
+        }
+        let i = *rng.pick(&live);
+        let take = rng.range(1, 3).min(seqs[i].len() as u64) as usize;
+        for _ in 0..take {
+            burst.push(seqs[i].remove(0));
+        }
+    }
+    if rng.chance(1, 2) {
+        missing.reverse();
+    }
+    (tree, ForkPlan { serial, burst, missing })
+}
+
+fn build_fork_history(rng: &mut Rng, opts: &Opts, bdir: &Path) -> (Hist, ChainBuilder, ForkPlan, u64) {
+    let el = rng.range(3, 5);
+    let wfar = *rng.pick(&[4u64, 6, 10, 10]);
+    let cfg = node_cfg_w(el, wfar);
+    let consensus = make_consensus(&cfg);
+    let (tree, plan) = gen_fork(rng, opts.thorough());
+    let n = tree.parent.len() - 1;
+    let mut builder = ChainBuilder::new(consensus.clone(), bdir);
+    builder.max_branch_stores = 12;
+    let mut blks = vec![genesis_blk(&consensus)];
+    for id in 1..=n {
+        let p = blks[tree.parent[id]].clone();
+        let g = if p.id != 0 { Some(blks[p.parent].clone()) } else { None };
+        let b = build_blk(&mut builder, id, &p, g.as_ref(), tree.kind[id]);
+        blks.push(b);
+    }
+    let by_hash = hash_map(&blks);
+    (Hist { el, cfg, consensus, blks, by_hash }, builder, plan, wfar)
+}
+
+/// Everything start-up rebuilds, as seen through the node's public accessors.
+#[derive(PartialEq, Eq, Clone, Debug)]
+struct Recon {
+    tip: Option<usize>,
+    td: u128,
+    /// ids of the blocks whose proposal is in `Snapshot::proposals().gap()` / `.set()`
+    gap: Vec<String>,
+    set: Vec<String>,
+    /// (number, start, length, last block hash of the previous epoch) of `Snapshot::epoch_ext()`
+    snap_epoch: (u64, u64, u64, String),
+    /// the stored current epoch
+    db_epoch: Option<(u64, u64, u64, String)>,
+    /// `get_block_status` per block id
+    status: Vec<u32>,
+    orph: usize,
+}
+
+fn epoch_tuple(e: &ckb_types::core::EpochExt, by_hash: &HashMap<Byte32, usize>) -> (u64, u64, u64, String) {
+    let l = e.last_block_hash_in_previous_epoch();
+    (e.number(), e.start_number(), e.length(), by_hash.get(&l).map(|i| i.to_string()).unwrap_or_else(|| format!("{l}")))
+}
+
+fn proposer_map(h: &Hist) -> HashMap<packed::ProposalShortId, usize> {
+    h.blks.iter().filter_map(|b| b.tx.as_ref().map(|t| (t.proposal_short_id(), b.id))).collect()
+}
+
+fn recon_of_node(node: &Node, h: &Hist) -> Recon {
+    let snap = node.shared.snapshot();
+    let pm = proposer_map(h);
+    let name = |ids: &HashSet<packed::ProposalShortId>| {
+        let mut v: Vec<String> = ids.iter().map(|i| pm.get(i).map(|b| b.to_string()).unwrap_or_else(|| format!("{i:?}"))).collect();
+        v.sort();
+        v
+    };
+    Recon {
+        tip: h.by_hash.get(&snap.tip_hash()).copied(),
+        td: u256_u128(snap.total_difficulty()),
+        gap: name(snap.proposals().gap()),
+        set: name(snap.proposals().set()),
+        snap_epoch: epoch_tuple(snap.epoch_ext(), &h.by_hash),
+        db_epoch: node.store().get_current_epoch_ext().map(|e| epoch_tuple(&e, &h.by_hash)),
+        status: h.blks.iter().map(|b| node.shared.get_block_status(&b.hash).bits()).collect(),
+        orph: node.controller().orphan_blocks_len(),
+    }
+}
+
+/// The replay oracle for `Recon`, from the history alone (no node): the C20 window rule over the tip's path
+/// (`ProposalTable::finalize`), the epoch of the tip recomputed by a replay store, the work along the path,
+/// the status from the persisted ext (valid-only histories, empty header map).
+fn recon_oracle(h: &Hist, builder: &mut ChainBuilder, tip: usize, window: (u64, u64), view: &StateView) -> Recon {
+    let path = h.path(tip);
+    let n = h.blks[tip].num;
+    let cand = n + 1;
+    let ids_in = |lo: u64, hi: u64| -> Vec<String> {
+        // blocks of the path with lo <= number <= hi (numbers >= 1) that propose something
+        let mut v: Vec<String> = path.iter().filter(|i| **i != 0 && h.blks[**i].num >= lo && h.blks[**i].num <= hi && h.blks[**i].tx.is_some()).map(|i| i.to_string()).collect();
+        v.sort();
+        v
+    };
+    let (set, gap) = if cand <= window.0 {
+        (vec![], ids_in(0, n))
+    } else {
+        let start = cand.saturating_sub(window.1);
+        let end = cand - window.0;
+        (ids_in(start, end), ids_in(end + 1, n))
+    };
+    let replay = builder.replay_store(&h.blks[tip].hash);
+    let e = replay.get_current_epoch_ext().map(|e| epoch_tuple(&e, &h.by_hash));
+    let ext: HashSet<usize> = view.ext.iter().map(|(i, _)| *i).collect();
+    let status = h.blks.iter().map(|b| {
+        if view.ver.contains(&b.id) { BlockStatus::BLOCK_VALID.bits() } else if ext.contains(&b.id) { BlockStatus::BLOCK_STORED.bits() } else { BlockStatus::UNKNOWN.bits() }
+    }).collect();
+    Recon { tip: Some(tip), td: h.total_work(tip), gap, set, snap_epoch: e.clone().unwrap_or((0, 0, 0, "?".into())), db_epoch: e, status, orph: view.orph }
+}
+
+fn recon_diff(a: &Recon, b: &Recon) -> String {
+    let mut v = vec![];
+    if a.tip != b.tip { v.push(format!("tip {:?} vs {:?}", a.tip, b.tip)); }
+    if a.td != b.td { v.push(format!("total difficulty {} vs {}", a.td, b.td)); }
+    if a.gap != b.gap { v.push(format!("proposals.gap (proposing blocks) {:?} vs {:?}", a.gap, b.gap)); }
+    if a.set != b.set { v.push(format!("proposals.set (proposing blocks) {:?} vs {:?}", a.set, b.set)); }
+    if a.snap_epoch != b.snap_epoch { v.push(format!("snapshot epoch {:?} vs {:?}", a.snap_epoch, b.snap_epoch)); }
+    if a.db_epoch != b.db_epoch { v.push(format!("stored current epoch {:?} vs {:?}", a.db_epoch, b.db_epoch)); }
+    if a.status != b.status {
+        let d: Vec<String> = (0..a.status.len()).filter(|i| a.status[*i] != b.status[*i]).map(|i| format!("blk{}:{}/{}", i, a.status[i], b.status[i])).collect();
+        v.push(format!("get_block_status {}", d.join(",")));
+    }
+    if a.orph != b.orph { v.push(format!("orphan pool size {} vs {}", a.orph, b.orph)); }
+    v.join("; ")
+}
+
+struct ForkCase<'a> {
+    h: &'a Hist,
+    wfar: u64,
+    plan: &'a ForkPlan,
+    /// the `done` lines of the serial prefix from the crashed child's log
+    serial_dones: &'a [Done],
+    /// (td, unique head) of the crash-free run after everything was delivered
+    expect: Option<(u128, Option<usize>)>,
+    /// replay: the deliveries after the restart as recorded; generation: None = never-stored blocks, then
+    /// (only if the scan legitimately left stored blocks alone) those
+    post: Option<Vec<usize>>,
+}
+
+/// One crashed / stopped directory of family `fork`: ops `burstcrash`, `requeued`, `restart`, `deliver`…
+/// and the oracles `burst-insert-order`, `not-requeued`, `restart-state` (vs the replay oracle),
+/// `restart-vs-reference` (vs a never-crashed node at the same logical point), `diverged-after-remaining`.
+fn fork_recover(out: &mut Out, fc: &ForkCase, builder: &mut ChainBuilder, node_dir: &Path, ref_dir: &Path, what: &str) {
+    let h = fc.h;
+    for d in fc.serial_dones {
+        out.op(&format!("deliver {} {}", d.id, d.hint), &d.line);
+    }
+    out.op("consts", &format!("mel={} expired={} bdw={}", h.consensus.max_epoch_length(), ckb_chain::VERIF_ORPHAN_EXPIRED_EPOCH, ckb_constant::sync::BLOCK_DOWNLOAD_WINDOW));
+    out.count("fork-crash-point");
+    let Some(crashed) = inspect_crashed(out, h, builder, node_dir, what) else {
+        out.op(&format!("burstcrash {} 0 0", show_ids(&fc.plan.burst)), "unreadable");
+        return;
+    };
+    // (i, v): inserts are performed in hand-over order by the one chain-service thread, verifications in
+    // queue order by the one verify thread; all blocks are valid, so nothing is ever deleted
+    let burst = &fc.plan.burst;
+    let stored: HashSet<usize> = crashed.view.stored.iter().copied().collect();
+    let has_ext: HashSet<usize> = crashed.view.ext.iter().map(|(i, _)| *i).collect();
+    let i = burst.iter().take_while(|b| stored.contains(b)).count();
+    if burst[i..].iter().any(|b| stored.contains(b)) {
+        out.oracle_fail("burst-insert-order", &format!("{what}: the stored blocks {:?} are not a prefix of the hand-over order {:?}", crashed.view.stored, burst));
+    }
+    let v = burst.iter().filter(|b| has_ext.contains(b)).count();
+    out.op(&format!("burstcrash {} {} {}", show_ids(burst), i, v), &fmt_line(&[], &crashed.view));
+    let Some(tip) = crashed.view.tip else { return };
+    let tipn = h.blks[tip].num;
+    if !crashed.unext.is_empty() {
+        out.nontrivial(h.fingerprint(burst, &[i as u64, v as u64, 11]));
+        out.count("crash-with-unverified-stored");
+    }
+    let below7 = crashed.unext.iter().filter(|u| h.blks[**u].num + 7 <= tipn).count();
+    let above = crashed.unext.iter().filter(|u| h.blks[**u].num > tipn).count();
+    let queued = crashed.unext.iter().filter(|u| { let p = h.blks[**u].parent; stored.contains(&p) }).count();
+    if below7 > 0 { out.count("fork-unverified-7-or-more-below-tip"); out.count("deep-stored-unverified-below-tip-6"); }
+    if below7 >= 3 { out.count("fork-3-or-more-unverified-7-below-tip"); }
+    if above > 0 { out.count("fork-unverified-above-tip"); }
+    if queued > 0 { out.count("fork-unverified-with-stored-parent"); }
+    if crashed.unext.iter().any(|u| h.blks[*u].num == 1) { out.count("fork-unverified-at-window-lower-edge-1"); }
+    let h_main = (1..h.blks.len()).take_while(|x| h.blks[*x].parent == *x - 1).count();
+    if tip > h_main { out.count("fork-crash-after-reorg-to-branch"); }
+    let scanned = expected_scan(h, tip, &crashed.unext);
+    let all_in = scanned.len() == crashed.unext.len();
+    if !all_in { out.count("fork-scan-cut-by-number-gap-above-tip"); }
+    let mel = h.consensus.max_epoch_length();
+    let order = h.scan_order();
+
+    // ---- restart (no re-delivery)
+    let t_start = Instant::now();
+    let Some(node) = start_node(out, h, node_dir, what) else { return };
+    tick(&T_START_US, t_start);
+    let t_red = Instant::now();
+    let mut r = Runner::new(&node, &h.blks, true);
+    r.await_resolved = scanned.clone();
+    let ar = r.after_restart();
+    r.await_resolved.clear();
+    if let Err(e) = ar {
+        out.oracle_fail("hang", &format!("{what}: after restart: {e}"));
+        out.op(&format!("requeued {} {}", mel, show_ids(&order)), "hang");
+        drop(r);
+        std::mem::forget(node);
+        return;
+    }
+    let resolved = |r: &Runner, c: usize| -> bool {
+        let store = r.node.store();
+        let hash = &h.blks[c].hash;
+        store.get(COLUMN_BLOCK_HEADER, hash.as_slice()).is_none() || store.get_block_ext(hash).is_some() || r.in_pool(c)
+    };
+    // the set the start-up scan re-submitted, as observable: has an ext now, was deleted, or sits in the pool
+    let observed: Vec<usize> = order.iter().copied().filter(|c| crashed.unext.contains(c) && resolved(&r, *c)).collect();
+    out.op(&format!("requeued {} {}", mel, show_ids(&order)), &show_ids(&observed));
+    for _ in 0..observed.len() { out.count("restart-requeued"); }
+    let left: Vec<usize> = scanned.iter().copied().filter(|c| !observed.contains(c)).collect();
+    if !left.is_empty() {
+        out.oracle_fail("not-requeued", &format!("{what}: after restart blocks {:?} (numbers {:?}) are still stored without ext and are not in the orphan pool: InitLoadUnverified did not pick them up (crashed store: tip={tip} number {tipn}, stored-without-ext={:?} with numbers {:?})", left, left.iter().map(|i| h.blks[*i].num).collect::<Vec<_>>(), crashed.unext, crashed.unext.iter().map(|i| h.blks[*i].num).collect::<Vec<_>>()));
+    }
+    let v0 = r.view();
+    out.op(&format!("restart {} {}", mel, show_ids(&order)), &fmt_line(&[], &v0));
+
+    // ---- what start-up rebuilt: against the replay oracle ...
+    let window = (WINDOW.0, fc.wfar);
+    let check_recon = |out: &mut Out, builder: &mut ChainBuilder, node: &Node, view: &StateView, when: &str| -> Option<Recon> {
+        let got = recon_of_node(node, h);
+        let t = got.tip?;
+        if h.path(t).iter().any(|i| h.blks[*i].kind != Kind::Valid) {
+            return Some(got);
+        }
+        let want = recon_oracle(h, builder, t, window, view);
+        if got != want {
+            out.oracle_fail("restart-state", &format!("{what}: {when}: the node's state differs from a replay of the stored main chain genesis..{t} (node vs replay): {}", recon_diff(&got, &want)));
+        }
+        Some(got)
+    };
+    let got0 = check_recon(out, builder, &node, &v0, "after the restart");
+    out.count("recon-compared");
+
+    // ---- ... and against a never-crashed node that received exactly the blocks this one had stored
+    let _ = std::fs::remove_dir_all(ref_dir);
+    let refnode = Node::start(ref_dir, h.consensus.clone(), &h.cfg);
+    let mut rr = Runner::new(&refnode, &h.blks, false);
+    let mut ref_ok = true;
+    for id in fc.plan.serial.iter().chain(burst[..i].iter()) {
+        if let Err(e) = rr.deliver(*id) {
+            out.oracle_fail("hang", &format!("{what}: reference node: delivery of {id}: {e}"));
+            ref_ok = false;
+            break;
+        }
+    }
+    let vs_ref = |out: &mut Out, got: &Option<Recon>, refnode: &Node, when: &str| {
+        if let Some(g) = got {
+            // whether a block OFF the tip's path got `verified = Some(true)` or only an ext depends on the
+            // order of verification (the scan re-submits by number): BLOCK_VALID ~ BLOCK_STORED there
+            let canon = |mut x: Recon| {
+                let path: HashSet<usize> = x.tip.map(|t| h.path(t).into_iter().collect()).unwrap_or_default();
+                for (i, st) in x.status.iter_mut().enumerate() {
+                    if !path.contains(&i) && *st == BlockStatus::BLOCK_VALID.bits() {
+                        *st = BlockStatus::BLOCK_STORED.bits();
+                    }
+                }
+                x
+            };
+            let w = canon(recon_of_node(refnode, h));
+            let g = &canon(g.clone());
+            if g.tip != w.tip && g.td == w.td {
+                // two heaviest chains of equal work: which one was verified first (scan order by number vs
+                // hand-over order) decides the tip; everything else hangs on the tip
+                out.count("reference-comparison-skipped-tie");
+            } else if *g != w {
+                out.oracle_fail("restart-vs-reference", &format!("{what}: {when}: the restarted node differs from a never-crashed node that received the same blocks (restarted vs reference): {}", recon_diff(g, &w)));
+            }
+        }
+    };
+    if ref_ok && all_in {
+        vs_ref(out, &got0, &refnode, "after the restart");
+        out.count("recon-vs-reference");
+    }
+
+    // ---- only the blocks the node never stored
+    let never: Vec<usize> = burst[i..].iter().copied().chain(fc.plan.missing.iter().copied()).collect();
+    let post: Vec<usize> = fc.post.clone().unwrap_or_else(|| never.clone());
+    let mut delivered: HashSet<usize> = stored.iter().copied().filter(|x| *x != 0).collect();
+    let mut last = (v0.tip, v0.td);
+    let mut dead = false;
+    let mut checked_remaining = false;
+    let deliver_both = |out: &mut Out, builder: &mut ChainBuilder, r: &mut Runner, rr: &mut Runner, id: usize, ref_ok: &mut bool, compare: bool, last: &mut (Option<usize>, u128)| -> bool {
+        match r.deliver(id) {
+            Ok(d) => {
+                out.op(&format!("deliver {} {}", id, show_ids(&d.hint)), &fmt_line(&d.cbs, &d.view));
+                *last = (d.view.tip, d.view.td);
+                let got = check_recon(out, builder, r.node, &d.view, &format!("after the delivery of {id} following the restart"));
+                if *ref_ok {
+                    if let Err(e) = rr.deliver(id) {
+                        out.oracle_fail("hang", &format!("{what}: reference node: delivery of {id}: {e}"));
+                        *ref_ok = false;
+                    } else if compare {
+                        vs_ref(out, &got, rr.node, &format!("after the delivery of {id} following the restart"));
+                    }
+                }
+                true
+            }
+            Err(e) => {
+                out.oracle_fail("hang", &format!("{what}: delivery of {id} after restart: {e}"));
+                out.op(&format!("deliver {} -", id), "hang");
+                false
+            }
+        }
+    };
+    let never_set: HashSet<usize> = never.iter().copied().collect();
+    for (j, id) in post.iter().enumerate() {
+        if !deliver_both(out, builder, &mut r, &mut rr, *id, &mut ref_ok, all_in, &mut last) {
+            dead = true;
+            break;
+        }
+        delivered.insert(*id);
+        // as soon as every never-stored block has been delivered (and nothing that was stored):
+        if !checked_remaining && all_in && never_set.iter().all(|x| delivered.contains(x)) && post[..=j].iter().all(|x| never_set.contains(x)) {
+            checked_remaining = true;
+            if let Some(want) = fc.expect {
+                check_converged(out, "diverged-after-remaining", "after the restart and the delivery of ONLY the blocks that were never stored before the crash", last, want, what);
+                out.count("converged-without-redelivery-checked");
+            }
+        }
+    }
+    if !dead && fc.post.is_some() {
+        // replay: when the recorded deliveries cover every never-stored block and every block the scan left alone
+        let covered = never_set.iter().all(|x| post.contains(x)) && crashed.unext.iter().all(|c| scanned.contains(c) || post.contains(c));
+        if covered {
+            if let Some(want) = fc.expect {
+                check_converged(out, "diverged", "after the recorded deliveries (every never-stored block and every block the scan left alone)", last, want, what);
+            }
+        }
+    }
+    if !dead && fc.post.is_none() {
+        if never.is_empty() && all_in {
+            if let Some(want) = fc.expect {
+                check_converged(out, "diverged-after-remaining", "after the restart alone (every block was already stored)", last, want, what);
+                out.count("converged-without-redelivery-checked");
+            }
+        }
+        if !all_in {
+            // the scan legitimately left blocks alone (number gap above the tip): the sync layer would fetch
+            // them again; with them re-delivered the node must converge
+            let extra: Vec<usize> = crashed.unext.iter().copied().filter(|c| !scanned.contains(c)).collect();
+            for id in extra {
+                if !deliver_both(out, builder, &mut r, &mut rr, id, &mut ref_ok, false, &mut last) {
+                    dead = true;
+                    break;
+                }
+            }
+            if !dead {
+                if let Some(want) = fc.expect {
+                    check_converged(out, "diverged", "after re-delivering the blocks the scan left alone", last, want, what);
+                }
+                if ref_ok {
+                    let g = Some(recon_of_node(&node, h));
+                    vs_ref(out, &g, &refnode, "at the end");
+                }
+            }
+        }
+    }
+    drop(r);
+    drop(rr);
+    tick(&T_REDELIVER_US, t_red);
+    if dead {
+        std::mem::forget(node);
+        std::mem::forget(refnode);
+        return;
+    }
+    let t_stop = Instant::now();
+    node.stop();
+    refnode.stop();
+    tick(&T_STOP_US, t_stop);
+    let _ = std::fs::remove_dir_all(ref_dir);
+}
+
+fn fork_history(out: &mut Out, opts: &Opts, rng: &mut Rng, base: &Path, hno: u64, exe: &Path) {
+    let bdir = base.join(format!("fb{hno}"));
+    let _ = std::fs::remove_dir_all(&bdir);
+    let (h, mut builder, plan, wfar) = build_fork_history(rng, opts, &bdir);
+    let blocks_file = base.join(format!("f{hno}.blocks"));
+    write_blocks(&blocks_file, &h.blks);
+    let env = ChildEnv { exe: exe.to_path_buf(), out: opts.out.clone(), blocks_file, el: h.el };
+    let stderr = opts.out.join("child-stderr.txt");
+    let fa = |stop: bool| ForkArgs { wfar, serial: plan.serial.clone(), burst: plan.burst.clone(), post: plan.missing.clone(), stop };
+    let mk = |tag: &str, crash: Option<String>, stop: bool| {
+        let job = ChildJob { node_dir: base.join(tag), log: base.join(format!("{tag}.log")), stderr: stderr.clone(), ids: vec![], crash, fenced: false, fork: Some(fa(stop)) };
+        let _ = std::fs::remove_dir_all(&job.node_dir);
+        let _ = std::fs::remove_file(&job.log);
+        job
+    };
+    out.count("history-fork");
+    // ---- the crash-free reference run
+    let refjob = mk(&format!("f{hno}-ref"), None, false);
+    let exit = run_child(&env, &refjob);
+    out.count("child-run");
+    let log = parse_log(&refjob.log);
+    let _ = std::fs::remove_dir_all(&refjob.node_dir);
+    let label = format!("el={} wf={} hist={} n={} serial={} burst={} missing={}", h.el, wfar, hno, h.blks.len() - 1, plan.serial.len(), show_ids(&plan.burst), show_ids(&plan.missing));
+    out.begin_case(&format!("reffork {label}"));
+    emit_blks(out, &h);
+    for d in &log.dones[..log.serial_dones.min(log.dones.len())] {
+        out.op(&format!("deliver {} {}", d.id, d.hint), &d.line);
+        out.count("deliver");
+    }
+    let complete = exit == ChildExit::Code(0) && log.burst_at.is_some() && log.quiet.is_some() && log.end.is_some() && log.dones.len() == plan.serial.len() + plan.missing.len();
+    if !complete {
+        let class = if log.hang.is_some() || exit == ChildExit::Timeout { "hang" } else { "child-failed" };
+        out.oracle_fail(class, &format!("fork reference run: {} log-hang={:?}", describe_exit(&exit, &refjob), log.hang));
+        return;
+    }
+    let (kq, qline) = log.quiet.clone().unwrap();
+    out.op(&format!("burst {}", show_ids(&plan.burst)), &format!("td={}", td_of(&qline)));
+    for d in &log.dones[log.serial_dones..] {
+        out.op(&format!("deliver {} {}", d.id, d.hint), &d.line);
+        out.count("deliver");
+    }
+    let fin = if log.dones.len() > log.serial_dones { log.dones.last().unwrap().line.clone() } else { qline.clone() };
+    let (final_tip, final_td) = (tip_of(&fin), td_of(&fin));
+    let delivered: HashSet<usize> = plan.serial.iter().chain(plan.burst.iter()).chain(plan.missing.iter()).copied().collect();
+    let (best_td, best_head) = h.best(&delivered);
+    if final_td != best_td {
+        out.count("ref-not-maximal");
+    }
+    let expect = Some((final_td, if best_head.is_some() && best_head == final_tip { best_head } else { None }));
+    if h.blks.iter().map(|b| b.epoch).max().unwrap_or(0) >= 2 {
+        out.count("fork-history-crossing-2-epoch-boundaries");
+    }
+    // ---- crash points inside the burst (commit indexes kb+1 ..= kq) and a plain stop
+    let kb = log.burst_at.unwrap();
+    let span = kq.saturating_sub(kb);
+    let mut offs: Vec<u64> = if opts.thorough() || span <= 10 {
+        (1..=span).collect()
+    } else {
+        let mut v = vec![1, 2, span / 4, span / 2, span / 2 + 1, 3 * span / 4, span - 1, span];
+        for _ in 0..2 {
+            v.push(rng.range(1, span));
+        }
+        v
+    };
+    offs.retain(|o| *o >= 1 && *o <= span);
+    offs.sort();
+    offs.dedup();
+    let mut specs: Vec<(Option<u64>, bool, bool)> = vec![]; // (offset, after, stop)
+    for (j, o) in offs.iter().enumerate() {
+        specs.push((Some(*o), j % 3 == 1, false));
+    }
+    specs.push((None, false, true));
+    let jobs: Vec<ChildJob> = specs
+        .iter()
+        .map(|(o, after, stop)| match o {
+            Some(o) => mk(&format!("f{hno}-c{}{}", kb + o, if *after { "a" } else { "b" }), Some(format!("{}:{}", kb + o, if *after { "after" } else { "before" })), false),
+            None => mk(&format!("f{hno}-stop"), None, *stop),
+        })
+        .collect();
+    let ref_dir = base.join(format!("f{hno}-inproc-ref"));
+    run_jobs(&env, &jobs, 4, |ji, exit| {
+        let (o, after, stop) = specs[ji];
+        let job = &jobs[ji];
+        out.count("child-run");
+        let mode = if stop { "stop".to_string() } else { format!("n={} mode={}", kb + o.unwrap_or(0), if after { "after" } else { "before" }) };
+        out.begin_case(&format!("crashfork {mode} {label}"));
+        emit_blks(out, &h);
+        let clog = parse_log(&job.log);
+        let what = format!("fork hist={hno} {mode}");
+        let cleanup = || {
+            let _ = std::fs::remove_dir_all(&job.node_dir);
+            let _ = std::fs::remove_file(&job.log);
+        };
+        let want_exit = if stop { ChildExit::Code(0) } else { ChildExit::Signal(SIGABRT) };
+        if exit != want_exit || clog.burst_at.is_none() {
+            if !stop && exit == ChildExit::Code(0) {
+                out.count("child-no-crash");
+            } else if exit == ChildExit::Signal(SIGABRT) && clog.burst_at.is_none() {
+                out.count("crash-outside-burst");
+            } else {
+                let class = if clog.hang.is_some() || exit == ChildExit::Timeout { "hang" } else { "child-failed" };
+                out.oracle_fail(class, &format!("{what}: {} log-hang={:?}", describe_exit(&exit, job), clog.hang));
+            }
+            cleanup();
+            return;
+        }
+        if stop {
+            out.count("fork-plain-stop");
+        }
+        let fc = ForkCase { h: &h, wfar, plan: &plan, serial_dones: &clog.dones[..clog.serial_dones.min(clog.dones.len())], expect, post: None };
+        fork_recover(out, &fc, &mut builder, &job.node_dir, &ref_dir, &what);
+        cleanup();
+    });
+    let _ = std::fs::remove_file(&env.blocks_file);
+    let _ = std::fs::remove_file(&refjob.log);
+    drop(builder);
+    let _ = std::fs::remove_dir_all(&bdir);
+}
+
+
+// ------------------------------------------------------------------------------------------------
+// family `edge`: the TRUE lower edge of the scan window (tip − EXPIRED_EPOCH × max_epoch_length)
+// ------------------------------------------------------------------------------------------------
+
+const ALL_COLS: [&str; 19] = ["0", "1", "2", "3", "4", "5", "6", "7", "8", "9", "10", "11", "12", "13", "14", "15", "16", "17", "18"];
+
+/// A main chain of L = EXPIRED_EPOCH × max_epoch_length + 6 blocks (both factors read from the real code),
+/// so that the window's lower edge is number 6. The database is prepared without running 10 806
+/// verifications: a real node creates it (genesis, version), then every row of the builder's replay store
+/// (the chain attached as the chain service would) is copied in. Stored WITHOUT ext through the very
+/// transaction `ChainService::insert_block` uses: side blocks F5 (one below the edge), F6 (exactly on it),
+/// F7, and above the tip A1 (tip+1), A3 (tip+3; A2 is never stored: the number gap cuts the scan).
+/// Model side: the chain M7..ML is declared as ONE block of number L carrying their summed work (the model's
+/// `num` is a free field), the prepared state is reached by `longchain` + `burstcrash … 5 0`.
+fn edge_case(out: &mut Out, opts: &Opts, base: &Path) {
+    let t0 = Instant::now();
+    let cfg = node_cfg(1800);
+    let consensus = make_consensus(&cfg);
+    let mel = consensus.max_epoch_length();
+    let expired = ckb_chain::VERIF_ORPHAN_EXPIRED_EPOCH;
+    let l = expired * mel + 6;
+    let bdir = base.join("edge-b");
+    let _ = std::fs::remove_dir_all(&bdir);
+    let mut builder = ChainBuilder::new(consensus.clone(), &bdir);
+    builder.max_branch_stores = 3;
+    let g = genesis_blk(&consensus);
+    let spec = |salt: u64| BlockSpec { salt, ..Default::default() };
+    let mut main: Vec<BlockView> = vec![(*g.block).clone()];
+    let mut side: Vec<BlockView> = vec![];
+    for n in 1..=l {
+        let parent = main[(n - 1) as usize].hash();
+        if (5..=7).contains(&n) {
+            // the side block of this number first (it moves the store's tip; the main block then replays n-1 blocks)
+            side.push(builder.build(&parent, &spec(1_000_000 + n)));
+        }
+        main.push(builder.build(&parent, &spec(n)));
+    }
+    // the prepared database
+    let node_dir = base.join("edge-node");
+    let _ = std::fs::remove_dir_all(&node_dir);
+    let node = Node::start(&node_dir, consensus.clone(), &cfg);
+    let t1 = Instant::now();
+    while node.controller().is_verifying_unverified_blocks_on_startup() && t1.elapsed() < wait_timeout() {
+        std::thread::sleep(Duration::from_millis(1));
+    }
+    node.stop();
+    let tip_hash = main[l as usize].hash();
+    {
+        let src = builder.replay_store(&tip_hash);
+        let raw = RocksDB::open_in(node_dir.join("db"), COLUMNS);
+        for col in ALL_COLS {
+            let mut batch = raw.new_write_batch();
+            let mut n = 0usize;
+            src.db().full_traverse(col, &mut |k: &[u8], v: &[u8]| {
+                batch.put(col, k, v)?;
+                n += 1;
+                Ok(())
+            }).expect("traverse the builder store");
+            if n > 0 {
+                raw.write(&batch).expect("copy rows");
+            }
+        }
+        let db = ChainDB::new(raw, Default::default());
+        // above the tip
+        let a1 = builder.build(&tip_hash, &spec(2_000_001));
+        let a2 = builder.build(&a1.hash(), &spec(2_000_002));
+        let a3 = builder.build(&a2.hash(), &spec(2_000_003));
+        for b in side.iter().chain([&a1, &a3]) {
+            let txn = db.begin_transaction();
+            txn.insert_block(b).expect("insert_block");
+            txn.commit().expect("commit");
+        }
+        side.push(a1);
+        side.push(a2);
+        side.push(a3);
+    }
+    out.extra.insert("edge_prepare_s".into(), serde_json::json!(t0.elapsed().as_secs_f64()));
+    // ids: 0 genesis, 1..=6 M1..M6, 7 = ML (M7..ML as one model block), 8 F5, 9 F6, 10 F7, 11 A1, 12 A2, 13 A3
+    let w = |b: &BlockView| u256_u128(&b.header().difficulty());
+    let mk = |id: usize, parent: usize, b: &BlockView, work: u128| Blk { id, parent, hash: b.hash(), num: b.number(), epoch: b.epoch().number(), work, kind: Kind::Valid, block: Arc::new(b.clone()), tx: None };
+    let mut blks = vec![g.clone()];
+    for n in 1..=6usize {
+        blks.push(mk(n, n - 1, &main[n], w(&main[n])));
+    }
+    let rest: u128 = (7..=l as usize).map(|n| w(&main[n])).sum();
+    blks.push(mk(7, 6, &main[l as usize], rest));
+    blks.push(mk(8, 4, &side[0], w(&side[0])));
+    blks.push(mk(9, 5, &side[1], w(&side[1])));
+    blks.push(mk(10, 6, &side[2], w(&side[2])));
+    blks.push(mk(11, 7, &side[3], w(&side[3])));
+    blks.push(mk(12, 11, &side[4], w(&side[4])));
+    blks.push(mk(13, 12, &side[5], w(&side[5])));
+    let by_hash = hash_map(&blks);
+    let h = Hist { el: 1800, cfg: cfg.clone(), consensus: consensus.clone(), blks, by_hash };
+    out.begin_case(&format!("edge el=1800 L={l} lower-edge={}", l - expired * mel));
+    emit_blks(out, &h);
+    out.op("consts", &format!("mel={} expired={} bdw={}", mel, expired, ckb_constant::sync::BLOCK_DOWNLOAD_WINDOW));
+    out.op("longchain 1,2,3,4,5,6,7", "ok");
+    out.count("edge-case");
+    let what = "edge case";
+    // the prepared store, read without services (the replay oracle of `check_store` would replay 10 806
+    // blocks per call: only the view is taken here)
+    let view = {
+        let db = ChainDB::new(RocksDB::open_in(node_dir.join("db"), COLUMNS), Default::default());
+        view_of_store(&db, &h.blks, &h.by_hash)
+    };
+    out.op("burstcrash 8,9,10,11,13 5 0", &fmt_line(&[], &view));
+    let has_ext: HashSet<usize> = view.ext.iter().map(|(i, _)| *i).collect();
+    let unext: Vec<usize> = view.stored.iter().copied().filter(|i| *i != 0 && !has_ext.contains(i)).collect();
+    let order = h.scan_order();
+    let scanned = expected_scan(&h, 7, &unext);
+    if scanned != vec![9, 10, 11] || unext != vec![8, 9, 10, 11, 13] {
+        out.oracle_fail("child-failed", &format!("{what}: the prepared store is not the intended one: stored-without-ext {unext:?}, expected scan {scanned:?}"));
+    }
+    if let Some(node) = start_node(out, &h, &node_dir, what) {
+        let mut r = Runner::new(&node, &h.blks, true);
+        r.await_resolved = scanned.clone();
+        let ar = r.after_restart();
+        r.await_resolved.clear();
+        match ar {
+            Err(e) => {
+                out.oracle_fail("hang", &format!("{what}: after restart: {e}"));
+                out.op(&format!("requeued {} {}", mel, show_ids(&order)), "hang");
+                drop(r);
+                std::mem::forget(node);
+            }
+            Ok(()) => {
+                let store = node.store();
+                let observed: Vec<usize> = order.iter().copied().filter(|c| {
+                    let hash = &h.blks[*c].hash;
+                    unext.contains(c) && (store.get(COLUMN_BLOCK_HEADER, hash.as_slice()).is_none() || store.get_block_ext(hash).is_some() || r.in_pool(*c))
+                }).collect();
+                out.op(&format!("requeued {} {}", mel, show_ids(&order)), &show_ids(&observed));
+                for c in &scanned {
+                    if !observed.contains(c) {
+                        out.oracle_fail("not-requeued", &format!("{what}: tip number {l}: the stored-without-ext block of number {} (window = [{}, tip + 10 x BLOCK_DOWNLOAD_WINDOW]) was not picked up by InitLoadUnverified", h.blks[*c].num, l - expired * mel));
+                    }
+                }
+                let v = r.view();
+                out.op(&format!("restart {} {}", mel, show_ids(&order)), &fmt_line(&[], &v));
+                // A1 (tip+1) must have been verified and be the tip now; F6, F7 carry an ext; F5 and A3 are left alone
+                let want_td = h.total_work(11);
+                if v.tip != Some(11) || v.td != want_td {
+                    out.oracle_fail("diverged-after-remaining", &format!("{what}: after the restart alone tip={:?} td={}, but the stored child of the tip (number {}) makes td={want_td}", v.tip, v.td, l + 1));
+                }
+                out.count("edge-lower-edge-candidate-requeued");
+                drop(r);
+                node.stop();
+            }
+        }
+    }
+    drop(builder);
+    let _ = std::fs::remove_dir_all(&bdir);
+    let _ = std::fs::remove_dir_all(&node_dir);
+    out.extra.insert("edge_total_s".into(), serde_json::json!(t0.elapsed().as_secs_f64()));
+    let _ = opts;
+}
+
 fn generate(out: &mut Out, opts: &Opts, base: &Path) {
     let mut rng = Rng::new(opts.seed);
     let exe = std::env::current_exe().expect("current_exe");
-    let nh = if opts.thorough() { 36 * opts.scale } else { 3 * opts.scale };
+    let nh = if opts.thorough() { 30 * opts.scale } else { 5 * opts.scale };
     let t0 = Instant::now();
+    if !opts.extra.iter().any(|x| x == "only-fork") {
+        edge_case(out, opts, base);
+        eprintln!("C08: edge case done, {:.1}s", t0.elapsed().as_secs_f64());
+    }
+    if opts.extra.iter().any(|x| x == "only-edge") {
+        return;
+    }
     for hno in 0..nh {
-        one_history(out, opts, &mut rng, base, hno, &exe);
+        // hno % 5: 0 random tree, 1 deep (one linear orphan chain), 2 fork (burst, no re-delivery), 3 random tree, 4 fork
+        let only_fork = opts.extra.iter().any(|x| x == "only-fork"); // development aid
+        if hno % 5 == 2 || hno % 5 == 4 || only_fork {
+            fork_history(out, opts, &mut rng, base, hno, &exe);
+        } else {
+            // the index one_history sees: 0,1,2,3,.. (deep = index % 3 == 1)
+            let idx = (hno / 5) * 3 + match hno % 5 { 0 => 0, 1 => 1, _ => 2 };
+            one_history(out, opts, &mut rng, base, idx, &exe);
+        }
         eprintln!("C08: history {} done, {} cases, {:.1}s", hno + 1, out.case, t0.elapsed().as_secs_f64());
     }
 }
@@ -1822,15 +2909,125 @@ fn label_num(tokens: &[&str], key: &str) -> Option<u64> {
 }
 
 fn fresh_job(base: &Path, tag: &str, stderr: &Path, ids: &[usize], crash: Option<String>) -> ChildJob {
-    let job = ChildJob { node_dir: base.join(tag), log: base.join(format!("{tag}.log")), stderr: stderr.to_path_buf(), ids: ids.to_vec(), crash, fenced: false };
+    let job = ChildJob { node_dir: base.join(tag), log: base.join(format!("{tag}.log")), stderr: stderr.to_path_buf(), ids: ids.to_vec(), crash, fenced: false, fork: None };
     let _ = std::fs::remove_dir_all(&job.node_dir);
     let _ = std::fs::remove_file(&job.log);
     job
 }
 
+
+/// (i, v) of a crashed / stopped `fork` directory: stored blocks of the burst, and how many have an ext
+fn peek_iv(node_dir: &Path, h: &Hist, burst: &[usize]) -> Option<(usize, usize)> {
+    let path = node_dir.join("db");
+    let db = std::panic::catch_unwind(std::panic::AssertUnwindSafe(|| ChainDB::new(RocksDB::open_in(&path, COLUMNS), Default::default()))).ok()?;
+    let i = burst.iter().take_while(|b| db.get(COLUMN_BLOCK_HEADER, h.blks[**b].hash.as_slice()).is_some()).count();
+    let v = burst.iter().filter(|b| db.get_block_ext(&h.blks[**b].hash).is_some()).count();
+    Some((i, v))
+}
+
+/// Replay of a `crashfork` case: `deliver`* (serial prefix) `consts` `burstcrash <ids> <i> <v>` `requeued`
+/// `restart` `deliver`*. The interleaving of the two service threads is not controllable: the child is
+/// killed after its (i+v)-th commit of the burst (or stopped when the label says `stop`), up to 5 times
+/// until the persisted state is the recorded (i, v); otherwise the last attempt is used (the emitted
+/// `burstcrash` op says which (i, v) was reached; every oracle applies to it all the same).
+#[allow(clippy::too_many_arguments)]
+fn replay_fork(out: &mut Out, h: &Hist, builder: &mut ChainBuilder, env: &ChildEnv, base: &Path, cno: usize, label: &[&str], ops: &[Vec<String>], wfar: u64, stderr: &Path) {
+    let id_of = |s: &str| -> usize {
+        let id: usize = s.parse().unwrap_or_else(|_| panic!("bad id {s}"));
+        assert!(id < h.blks.len(), "unknown block id {id}");
+        id
+    };
+    assert!(h.blks.iter().all(|b| b.kind == Kind::Valid), "a burstcrash case has valid blocks only");
+    let bi = ops.iter().position(|o| o[0] == "burstcrash").unwrap();
+    let mut serial = vec![];
+    for o in &ops[..bi] {
+        match o[0].as_str() {
+            "deliver" => serial.push(id_of(&o[1])),
+            "consts" | "commits" => {}
+            _ => panic!("unsupported replay op before burstcrash: {}", o.join(" ")),
+        }
+    }
+    assert_eq!(ops[bi].len(), 4, "burstcrash <ids> <i> <v>");
+    let burst: Vec<usize> = parse_ids(&ops[bi][1]).into_iter().map(|i| id_of(&i.to_string())).collect();
+    let ti: usize = ops[bi][2].parse().expect("burstcrash i");
+    let tv: usize = ops[bi][3].parse().expect("burstcrash v");
+    assert!(ti <= burst.len() && tv <= ti, "burstcrash: v <= i <= number of ids");
+    let mut post = vec![];
+    let mut seen_restart = false;
+    for o in &ops[bi + 1..] {
+        match o[0].as_str() {
+            "requeued" | "scan" => {}
+            "restart" => seen_restart = true,
+            "deliver" => {
+                assert!(seen_restart, "deliver after burstcrash needs a restart first");
+                post.push(id_of(&o[1]));
+            }
+            _ => panic!("unsupported replay op after burstcrash: {}", o.join(" ")),
+        }
+    }
+    let plan = ForkPlan { serial: serial.clone(), burst: burst.clone(), missing: post.iter().copied().filter(|p| !burst.contains(p) && !serial.contains(p)).collect() };
+    let stop = label.iter().any(|t| *t == "stop");
+    let mk = |tag: &str, crash: Option<String>, stop: bool| {
+        let job = ChildJob { node_dir: base.join(tag), log: base.join(format!("{tag}.log")), stderr: stderr.to_path_buf(), ids: vec![], crash, fenced: false, fork: Some(ForkArgs { wfar, serial: serial.clone(), burst: burst.clone(), post: vec![], stop }) };
+        let _ = std::fs::remove_dir_all(&job.node_dir);
+        let _ = std::fs::remove_file(&job.log);
+        job
+    };
+    // commit counter at the start of the burst from a crash-free run
+    let refjob = mk(&format!("r{cno}-fref"), None, false);
+    let exit = run_child(env, &refjob);
+    let rlog = parse_log(&refjob.log);
+    let _ = std::fs::remove_dir_all(&refjob.node_dir);
+    let _ = std::fs::remove_file(&refjob.log);
+    let Some(kb) = rlog.burst_at.filter(|_| exit == ChildExit::Code(0)) else {
+        out.oracle_fail(if rlog.hang.is_some() || exit == ChildExit::Timeout { "hang" } else { "child-failed" }, &format!("replay: crash-free run of the fork case: {}", describe_exit(&exit, &refjob)));
+        return;
+    };
+    let all: HashSet<usize> = serial.iter().chain(burst.iter()).chain(post.iter()).copied().filter(|x| *x != 0).collect();
+    let expect = Some(h.best(&all));
+    let mut chosen: Option<(ChildJob, ChildLog)> = None;
+    for attempt in 0..5 {
+        let crash = if stop { None } else if ti + tv == 0 { Some(format!("{}:before", kb + 1)) } else { Some(format!("{}:after", kb + (ti + tv) as u64)) };
+        let job = mk(&format!("r{cno}-fcrash{attempt}"), crash, stop);
+        let exit = run_child(env, &job);
+        let clog = parse_log(&job.log);
+        let want = if stop { ChildExit::Code(0) } else { ChildExit::Signal(SIGABRT) };
+        if exit != want || clog.burst_at.is_none() {
+            out.oracle_fail(if clog.hang.is_some() || exit == ChildExit::Timeout { "hang" } else { "child-failed" }, &format!("replay fork: {}", describe_exit(&exit, &job)));
+            let _ = std::fs::remove_dir_all(&job.node_dir);
+            return;
+        }
+        let hit = peek_iv(&job.node_dir, h, &burst) == Some((ti, tv));
+        if let Some((old, _)) = chosen.take() {
+            let _ = std::fs::remove_dir_all(&old.node_dir);
+            let _ = std::fs::remove_file(&old.log);
+        }
+        chosen = Some((job, clog));
+        if hit {
+            out.count("replay-fork-hit-recorded-interleaving");
+            break;
+        }
+    }
+    let (job, clog) = chosen.unwrap();
+    let what = format!("replay fork (recorded i={ti} v={tv})");
+    let fc = ForkCase { h, wfar, plan: &plan, serial_dones: &clog.dones[..clog.serial_dones.min(clog.dones.len())], expect, post: Some(post) };
+    fork_recover(out, &fc, builder, &job.node_dir, &base.join(format!("r{cno}-inproc-ref")), &what);
+    let _ = std::fs::remove_dir_all(&job.node_dir);
+    let _ = std::fs::remove_file(&job.log);
+}
+
 fn replay_case(out: &mut Out, opts: &Opts, label: &[&str], lines: &[String], base: &Path, cno: usize) {
+    if label.first() == Some(&"edge") {
+        // the prepared long chain is a function of the source's constants only: run it again
+        edge_case(out, opts, base);
+        return;
+    }
     let el = label_num(label, "el=").unwrap_or(4).clamp(1, 1000);
-    let cfg = node_cfg(el);
+    let wf = label_num(label, "wf=");
+    let cfg = match wf {
+        Some(w) => node_cfg_w(el, w.clamp(WINDOW.0, 64)),
+        None => node_cfg(el),
+    };
     let consensus = make_consensus(&cfg);
     out.begin_case(&label.join(" "));
     let bdir = base.join(format!("rb{cno}"));
@@ -1872,6 +3069,13 @@ fn replay_case(out: &mut Out, opts: &Opts, label: &[&str], lines: &[String], bas
     write_blocks(&blocks_file, &h.blks);
     let env = ChildEnv { exe: std::env::current_exe().expect("current_exe"), out: opts.out.clone(), blocks_file, el };
     let stderr = opts.out.join("child-stderr.txt");
+    if ops.iter().any(|o| o[0] == "burstcrash") {
+        replay_fork(out, &h, &mut builder, &env, base, cno, label, &ops, wf.unwrap_or(WINDOW.1), &stderr);
+        let _ = std::fs::remove_file(&env.blocks_file);
+        drop(builder);
+        let _ = std::fs::remove_dir_all(&bdir);
+        return;
+    }
     let ci = ops.iter().position(|o| o[0] == "crashdeliver");
     let prefix_end = ci.unwrap_or(ops.len());
     let mut prefix_ids = vec![];
@@ -1893,7 +3097,7 @@ fn replay_case(out: &mut Out, opts: &Opts, label: &[&str], lines: &[String], bas
                 "deliver" => {
                     if let Some(d) = log.dones.get(di) {
                         out.op(&format!("deliver {} {}", d.id, d.hint), &d.line);
-                        cur = d.count;
+                        cur = d.count - d.pokes;
                     }
                     di += 1;
                 }
@@ -1982,9 +3186,32 @@ fn replay_case(out: &mut Out, opts: &Opts, label: &[&str], lines: &[String], bas
         if !crashed.unext.is_empty() {
             out.nontrivial(h.fingerprint(&ids, &[k]));
         }
+        let mut crashed = crashed;
         let mut rest = &ops[ci + 1..];
         while !rest.is_empty() && rest[0][0] == "scan" {
             emit_scan(out, &h, &crashed);
+            rest = &rest[1..];
+        }
+        if !rest.is_empty() && rest[0][0] == "crash2" {
+            // a second process without deliveries, killed at its n2-th commit (label `n2=`)
+            let n2 = label_num(label, "n2=").unwrap_or(1).max(1);
+            let j2 = ChildJob { node_dir: job.node_dir.clone(), log: base.join(format!("r{cno}-second.log")), stderr: stderr.clone(), ids: vec![], crash: Some(format!("{n2}:before")), fenced: true, fork: None };
+            let _ = std::fs::remove_file(&j2.log);
+            let e2 = run_child(&env, &j2);
+            let l2 = parse_log(&j2.log);
+            let _ = std::fs::remove_file(&j2.log);
+            if !(e2 == ChildExit::Signal(SIGABRT) || e2 == ChildExit::Code(0)) {
+                out.oracle_fail(if l2.hang.is_some() || e2 == ChildExit::Timeout { "hang" } else { "child-failed" }, &format!("{what}: second process: {}", describe_exit(&e2, &j2)));
+                let _ = std::fs::remove_dir_all(&job.node_dir);
+                return;
+            }
+            let Some(c2) = inspect_crashed(out, &h, &mut builder, &job.node_dir, &format!("{what} (after crash 2)")) else {
+                let _ = std::fs::remove_dir_all(&job.node_dir);
+                return;
+            };
+            let obs = fmt_line(&[], &c2.view);
+            out.op(&format!("crash2 {} {} {}", h.consensus.max_epoch_length(), show_ids(&h.scan_order()), obs.replace(' ', "|")), &obs);
+            crashed = c2;
             rest = &rest[1..];
         }
         if !rest.is_empty() {
@@ -2048,9 +3275,62 @@ fn replay(out: &mut Out, opts: &Opts, ops: &[String], base: &Path) {
     }
 }
 
+
+/// Development aid (`vh-c08 C08 --out DIR race-probe <pairs>`), not part of the check: looks for the
+/// `search_orphan_leader` read-order race on the real code WITHOUT any fence. Pairs (P_i, C_i) of side blocks
+/// on M1; C_i is delivered first (pooled), then P_i; once P_i's callback has fired and nothing else was
+/// delivered, C_i must have left the pool. Prints how often it had not.
+fn race_probe(opts: &Opts) {
+    let pairs: usize = opts.extra.get(1).and_then(|x| x.parse().ok()).unwrap_or(1000);
+    let base = scratch_dir(&opts.out, "c08probe");
+    let cfg = node_cfg(1800);
+    let consensus = make_consensus(&cfg);
+    let mut builder = ChainBuilder::new(consensus.clone(), &base.join("b"));
+    builder.max_branch_stores = 2;
+    let node = Node::start(&base.join("n"), consensus.clone(), &cfg);
+    while node.controller().is_verifying_unverified_blocks_on_startup() {
+        std::thread::sleep(Duration::from_millis(1));
+    }
+    let g = consensus.genesis_block().hash();
+    let m1 = builder.build(&g, &BlockSpec { salt: 1, ..Default::default() });
+    node.process(&m1).expect("M1");
+    let mut hits = 0usize;
+    let t0 = Instant::now();
+    for i in 0..pairs {
+        let p = builder.build(&m1.hash(), &BlockSpec { salt: 10_000 + i as u64, ..Default::default() });
+        let c = builder.build(&p.hash(), &BlockSpec { salt: 5_000_000 + i as u64, ..Default::default() });
+        let lc = LonelyBlock { block: Arc::new(c.clone()), switch: None, verify_callback: None };
+        assert!(node.controller().verif_process_lonely_block_sync(lc));
+        let (tx, rx) = crossbeam_channel::bounded::<bool>(1);
+        let lp = LonelyBlock { block: Arc::new(p.clone()), switch: None, verify_callback: Some(Box::new(move |r: VerifyResult| { let _ = tx.send(r.is_ok()); })) };
+        assert!(node.controller().verif_process_lonely_block_sync(lp));
+        let ok = rx.recv_timeout(wait_timeout()).expect("P verified");
+        assert!(ok, "P_i is valid");
+        // C_i is verified right after P_i if it was released; give the pipeline time, deliver nothing
+        std::thread::sleep(Duration::from_millis(3));
+        let pooled = node.controller().get_orphan_block(node.store(), &c.hash()).is_some();
+        let parent_ext = node.store().get_block_ext(&p.hash()).is_some();
+        if pooled && parent_ext {
+            hits += 1;
+            eprintln!("race-probe: pair {i}: C is still in the orphan pool although P has an ext (pool size {})", node.controller().orphan_blocks_len());
+        }
+    }
+    println!("race-probe: {hits} stranded orphans in {pairs} pairs, {:.1}s", t0.elapsed().as_secs_f64());
+    node.stop();
+    drop(builder);
+    let _ = std::fs::remove_dir_all(&base);
+}
+
 pub fn run(opts: &Opts) {
     if opts.extra.first().map(|s| s == "child").unwrap_or(false) {
         child_main(opts);
+    }
+    if opts.extra.first().map(|s| s == "child2").unwrap_or(false) {
+        child2_main(opts);
+    }
+    if opts.extra.first().map(|s| s == "race-probe").unwrap_or(false) {
+        race_probe(opts);
+        return;
     }
     let t0 = Instant::now();
     let mut out = Out::new(&opts.out);
@@ -2066,7 +3346,9 @@ pub fn run(opts: &Opts) {
     let deep_n = out.hist.get("deep-stored-unverified-below-tip-6").copied().unwrap_or(0);
     out.extra.insert("deep-stored-unverified-below-tip-6".into(), serde_json::json!(deep_n));
     out.extra.insert("wall_s".into(), serde_json::json!(t0.elapsed().as_secs_f64()));
+    out.extra.insert("orphans-left-pooled-after-parent-verified-in-parent-process".into(), serde_json::json!(STRANDED_ORPHANS.load(std::sync::atomic::Ordering::Relaxed)));
+    out.extra.insert("abort-announced-but-process-ended-by-watchdog".into(), serde_json::json!(ABORT_STALLED.load(std::sync::atomic::Ordering::Relaxed)));
     let secs = |a: &std::sync::atomic::AtomicU64| a.load(std::sync::atomic::Ordering::Relaxed) as f64 / 1e6;
     out.extra.insert("parent_time_s".into(), serde_json::json!({"inspect_crashed_db": secs(&T_INSPECT_US), "node_start": secs(&T_START_US), "fence_and_redeliver": secs(&T_REDELIVER_US), "node_stop": secs(&T_STOP_US)}));
-    out.finish("crash point counted when the crashed store held at least one block stored without ext, or the crash fell inside a delivery that reorganises the chain in the crash-free run (fingerprint: tree, delivery order, commit index, mode)");
+    out.finish("crash point counted when the crashed store held at least one block stored without ext, or the crash fell inside a delivery that reorganises the chain in the crash-free run (fingerprint: tree, delivery order, commit index, mode; family fork: tree, burst order, inserts, verifications; second-level: n1, n2)");
 }
